@@ -75,11 +75,11 @@ func crashIsViolation(prop string) bool {
 }
 
 // usesRaceBuild: C17 always runs in the -race build; the thorough tier of C01, C04 and C12 runs
-// its simulations in the -race build too (the fan-out goroutines of real syncs are then under
+// its simulations (C20: the real endpoint with its reflector goroutines) in the -race build too (the fan-out goroutines of real syncs are then under
 // the race detector during every history).
 func usesRaceBuild(prop, tier string) bool {
 	if prop == "C17" {
 		return true
 	}
-	return tier == "thorough" && (prop == "C01" || prop == "C04" || prop == "C12")
+	return tier == "thorough" && (prop == "C01" || prop == "C04" || prop == "C12" || prop == "C20")
 }
